@@ -84,9 +84,9 @@ def run(v):
     out = os.path.join(C.WORK, PID)
     fresh_out(out)
     if v.tier == "quick":
-        args = ["-n", "5", "-points", "45"]
+        args = ["-n", "7", "-points", "63"]
     else:
-        args = ["-n", "20", "-points", "1500"]
+        args = ["-n", "24", "-points", "1500"]
     rc, o = C.sh([C.harness_bin(HARNESS), "crash", "-mode", "kill", "-out", out, "-seed", str(v.seed)] + args, timeout=20000)
     if rc != 0:
         v.violation("C03/harness-run", o[-1500:], {"theorem_or_correspondence": "correspondence fs_kill_state (harness run)"}, False)
@@ -108,14 +108,16 @@ def run(v):
         "rule": "kill points = (script, system call name, k): the child process running a deterministic script over the real "
                 "litestream code (script kept on one OS thread because strace counts injections per thread and per call) is "
                 "SIGKILLed on entry to the k-th openat/write/pwrite64/fsync/fdatasync/rename*/unlink*/ftruncate/"
-                "copy_file_range/sendfile; quick: 5 scripts (basic; republish = publishes over existing final names; retention; reset = ResetLocalState on the open DB then syncs; resetfetch = reset + baseline "
-                "fetch + syncs + uploads; retention), about 45 kill points spread "
-                "evenly over the recorded K mutating calls of each; thorough: about 1500 kill points (every 5th-10th mutating call) spread evenly over 20 scripts (basic, reset, "
+                "copy_file_range/sendfile; quick: 7 scripts (basic; followstart = initial follow-mode restore on the main thread and restorev3 = legacy v0.3.x restore of a snapshot-only and a snapshot+WAL generation, both sampled every 3rd call; republish = publishes over existing final names; retention; reset = ResetLocalState on the open DB then syncs; resetfetch = reset + baseline "
+                "fetch + syncs + uploads; retention), about 9 kill points each for the others spread "
+                "evenly over the recorded K mutating calls of each; thorough: about 1500 kill points (every 5th-10th mutating call) spread evenly over 24 scripts (basic, reset, "
                 "resetfetch, republish, retention, baseline, rerestore, checkpoint, follow, sidecar x 2 parameter draws). After each kill: every *.ltx must "
                 "decode and checksum (ltx Decoder.Verify), restore output must be absent or a database in an acknowledged "
                 "state, sidecar absent or parsable, restore of the last acknowledged replica TXID must equal the digest "
                 "recorded at the ack, and a restart (no repair) + write + Sync + Replica.Sync + restore must equal the "
-                "source. One model case per kill point compares presence and size of every litestream file with "
+                "source; in the follow scripts the FOLLOWER is restarted too (Restore with Follow on the same output must resume "
+                "or start afresh and converge to the primary's digest); a killed v0.3.x restore is run again and every output "
+                "must then equal its replica's state. One model case per kill point compares presence and size of every litestream file with "
                 "kill(run prefix). distinct = distinct (prefix, listing); non-trivial = process really killed and at least "
                 "one litestream file present.",
         "samples": [i["job"] for i in infos[:3]],
